@@ -106,6 +106,16 @@ class Run:
             self.outs.append(w)
             if not isinstance(w, int):
                 return {"clause": "get_effective_id raised", "got": w}
+            # a NEW packet (endpoint ID above every ID forwarded so far - the in-order case) must get a wire ID that was never
+            # used before: not by any injected packet, aged out of the window or not, and above every wire ID already emitted
+            # for a forwarded packet (the forward clauses of the statement carry no aged-out qualifier)
+            if self.log and o > max(o1 for (o1, _w1) in self.log):
+                if w in self.jall:
+                    return {"clause": "translation of a new packet yields an ID the proxy used for an injected packet",
+                            "class": "new-id-hits-injected", "o": o, "w": w}
+                if w in self.wires or any(w <= w1 for (_o1, w1) in self.log):
+                    return {"clause": "translation of a new packet is order-preserving / injective w.r.t. every packet forwarded before",
+                            "class": "new-id-not-fresh", "o": o, "w": w}
             _call(t.track_seen, w)
             self.wires.add(w)
             mev = self.max_evicted()
